@@ -288,6 +288,18 @@ var ramps = []rampT{
 	{"coroutine-nesting", func(n int) string {
 		return fmt.Sprintf("local function f(k) if k == 0 then return 0 end return 1 + coroutine.wrap(f)(k - 1) end return f(%d)", n)
 	}, func(n int) string { return fmt.Sprintf("return(%d)", n) }},
+	{"finaliser-coroutine-ops", func(n int) string {
+		// finalisers (run by collectgarbage or when the limited context ends) that resume a generator,
+		// close a suspended coroutine, try to yield and start a coroutine of their own
+		return fmt.Sprintf(`local gen = coroutine.wrap(function() while true do coroutine.yield(1) end end)
+local seen = 0
+for i = 1, %d do
+  local co = coroutine.create(function() coroutine.yield() end) coroutine.resume(co)
+  setmetatable({}, {__gc = function() seen = seen + gen() coroutine.close(co) pcall(coroutine.yield) seen = seen + coroutine.wrap(function() return 0 end)() end})
+end
+collectgarbage() collectgarbage()
+return %[1]d`, n)
+	}, func(n int) string { return fmt.Sprintf("return(%d)", n) }},
 	{"load-nesting", func(n int) string {
 		return fmt.Sprintf("local function f(k) if k == 0 then return 0 end return 1 + load('return ...')(f(k - 1)) end return f(%d)", n)
 	}, func(n int) string { return fmt.Sprintf("return(%d)", n) }},
@@ -651,8 +663,11 @@ func runCrash(ctx *core.RunCtx) {
 		if ctx.Tier != "thorough" && n > 200000 {
 			n = 200000
 		}
-		if (r.name == "coroutine-nesting" || r.name == "pcall-recursion") && n > 1500 {
+		if (r.name == "coroutine-nesting" || r.name == "pcall-recursion" || r.name == "finaliser-coroutine-ops") && n > 1500 {
 			n = 1500 // every level is a goroutine (coroutine) or several Go frames (pcall)
+		}
+		if r.name == "finaliser-coroutine-ops" && n > 300 {
+			n = 300 // two coroutines for every finaliser, and the scheduler follows a bounded number of threads
 		}
 		src := r.gen(n)
 		big := rt.RuntimeResources{Cpu: 100000000, Memory: 300000000}
